@@ -156,6 +156,8 @@ def Field.coherent : Field → Bool → Bool
     s.pref.exportedB &&
     (match s.pref with | .none => lastPos | .fixed .hex => false | _ => true) &&
     sortKeysOK (match s.mode with | .tagged t => t.sort | .bitmapped _ => .byInt) (subs.map (·.1)) &&
+    -- `subs` is `orderedSpecFieldTags`: the subfields in the composite's sort order
+    (orderSubs (match s.mode with | .tagged t => t.sort | .bitmapped _ => .byInt) subs).map (·.1) == subs.map (·.1) &&
     (match s.mode with
      | .tagged t =>
        subs.all (fun p => t.tagOK p.1) &&
